@@ -911,6 +911,14 @@ def _rowmap(mask):
     n = mask.size
     me = mask.snapshot()
     sh = mask._shape
+    cn = concrete(n)
+    if _py_isinstance(cn, int) and cn <= 64 and _py_len(sh) == 1:
+        vals = [me((k,)) for k in _py_range(cn)]
+        if builtins.all(_py_isinstance(v, bool) for v in vals):
+            picks = [k for k, v in enumerate(vals) if v]
+            sel_c = lambda r, picks=picks: _select(picks, r) if picks else 0  # noqa: E731
+            _rowmap_cache[key] = (_py_len(picks), sel_c, mask)
+            return _py_len(picks), sel_c
     probe = me(tuple(SV(z3.Int("probe!%d" % k), "i") for k in _py_range(_py_len(sh))))
     if probe is True and _py_len(sh) == 1:
         # every element is the constant True: all rows selected, in order
@@ -1638,6 +1646,13 @@ def _reduction(name, a, axis, result_dt=None):
         axis = None
     e = a.snapshot()
     rdt = result_dt or a.dtype
+    if axis is None and a.ndim == 1 and name in ("amin", "amax", "sum"):
+        cn = concrete(a._shape[0])
+        if _py_isinstance(cn, int) and 0 < cn <= 64:
+            vals = [e((k,)) for k in _py_range(cn)]
+            if builtins.all(_py_isinstance(v, (int, float)) and not _py_isinstance(v, bool) for v in vals):
+                r = {"amin": _py_min, "amax": _py_max, "sum": _py_sum}[name](vals)
+                return ndarray.from_elem(lambda idx, r=r: r, (), rdt)
     if axis is None:
         sh = a._shape
         j = z3.Int("j!red")
